@@ -33,7 +33,7 @@ def addS(pkg, pkgname, name, body, q, t, **extra):
 
 L="network/llmnr"
 add(L,"llmnr","DecodeMessage","DecodeMessage(data)",["0..13"],["0..14"],lossy_fmt=True)
-add(L,"llmnr","DecodeMessage_counts","vAssume(data[4] == 0 && data[6] == 0 && int(data[5]) == vParam(\"qd\") && int(data[7]) == vParam(\"an\"))\n\tDecodeMessage(data)",["14..20"],["14..26"],lossy_fmt=True,grid_extra={"qd":["0..2"],"an":["0..2"]})
+add(L,"llmnr","DecodeMessage_counts","vAssume(data[4] == 0 && data[6] == 0 && int(data[5]) == vParam(\"qd\") && int(data[7]) == vParam(\"an\"))\n\tDecodeMessage(data)",["14","15"],["14..18"],lossy_fmt=True,grid_extra={"qd":["0..2"],"an":["0..2"]})
 add(L,"llmnr","DecodeDomainName","DecodeDomainName(data, vParam(\"off\"))",["0..8"],["0..14"],lossy_fmt=True,grid_extra={"off":["0","1","3"]})
 add(L,"llmnr","DecodeQuestion","DecodeQuestion(data, 0)",["0..9"],["0..14"],lossy_fmt=True)
 add(L,"llmnr","DecodeResourceRecord","DecodeResourceRecord(data, 0)",["0..14"],["0..20"],lossy_fmt=True)
